@@ -348,3 +348,38 @@ Theorem C14_partition_map_spec : forall fn ms,
    filter (fun m => negb (fn m)) (filter (fun m => negb (is_empty m)) ms)).
 Proof. exact partition_map_spec. Qed.
 Print Assumptions C14_partition_map_spec.
+
+(* ---- non-vacuity / the boundary shapes, computed on the model ---- *)
+(* PartitionMap: empty maps (a nil map is the same thing to the loop) are dropped,
+   wherever they stand; the others keep their order on each side *)
+Example C14_partition_map_example :
+  partition_map (fun m => (2 <=? Z.of_nat (length m))) [[]; [(1, 2)]; []; [(3, 0); (4, 1)]; [(5, 5)]; []]
+  = ([[(3, 0); (4, 1)]], [[(1, 2)]; [(5, 5)]]) /\
+  partition_map (fun _ => true) [[]; []] = ([], []) /\ partition_map (fun _ => true) [] = ([], []).
+Proof. repeat split; reflexivity. Qed.
+
+(* Invert / MapKeys on collisions: the two iteration orders of one map give
+   different results, and both satisfy the defining property (C14_invert_sound,
+   C14_map_keys_assoc) — the key kept is one that held the value *)
+Example C14_collision_examples :
+  invert [(1, 5); (2, 5); (3, 0)] = [(5, 2); (0, 3)] /\ invert [(2, 5); (1, 5); (3, 0)] = [(5, 1); (0, 3)] /\
+  map_keys (fun _ _ => 0) [(1, 7); (2, 8)] = [(0, 8)] /\ map_keys (fun _ _ => 0) [(2, 8); (1, 7)] = [(0, 7)] /\
+  map_unique [(1, 5); (2, 5); (3, 0)] = [(1, 5); (3, 0)] /\ map_unique [(2, 5); (1, 5); (3, 0)] = [(2, 5); (3, 0)].
+Proof. repeat split; reflexivity. Qed.
+
+(* Find: the smallest qualifying key whatever the iteration order; FindKey's zero
+   key when nothing qualifies; Pick with keys that are absent (7) or repeated;
+   SliceToMap: last position wins, unequal lengths panic; the collection filter
+   keeps a map with two qualifying values once *)
+Example C14_boundary_examples :
+  find_go (fun v => 1 <? v) [(9, 5); (2, 0); (4, 7); (3, 1)] = [(4, 7)] /\
+  find_go (fun v => 1 <? v) [(4, 7); (3, 1); (9, 5); (2, 0)] = [(4, 7)] /\
+  find_go (fun v => 9 <? v) [(4, 7); (3, 1)] = [] /\
+  find_key (fun v => 9 <? v) [(4, 7); (3, 1)] = 0 /\
+  pick [(3, 1); (1, 2)] [7; 1; 1; 7] = Ok [(1, 2)] /\ pick [(3, 1)] [7] = Ok [] /\ pick [(3, 1)] [] = Err 1 /\
+  omit [(3, 1); (1, 2)] [7; 1; 1; 7] = [(3, 1)] /\
+  slice_to_map [1; 2; 1] [10; 20; 30] = Ok [(1, 30); (2, 20)] /\
+  slice_to_map [1; 2] [10] = Panic /\ slice_to_map [] [10] = Panic /\ slice_to_map [] [] = Ok [] /\
+  filter_map_collection (fun v => 22 <? v) [[(0, 30); (1, 40)]; [(0, 1)]; []] = [[(0, 30); (1, 40)]] /\
+  pluck [[(1, 5)]; [(2, 6)]; []; [(1, 0); (2, 3)]] 1 = [5; 0].
+Proof. repeat split; reflexivity. Qed.
